@@ -3,5 +3,8 @@ import json,jsonschema,sys,glob
 m=json.load(open('/verif/MANIFEST.json')); jsonschema.validate(m,json.load(open('/root/.vp/MANIFEST.schema.json')))
 sch=json.load(open('/root/.vp/EVIDENCE.schema.json'))
 for f in sorted(glob.glob('/verif/evidence/*.json')):
-    e=json.load(open(f)); jsonschema.validate(e,sch); print(f.split('/')[-1], e['tier'], e['coverage']['evaluations'], e['coverage']['distinct_nontrivial'], e['coverage'].get('verdict'))
+    e=json.load(open(f))
+    try: jsonschema.validate(e,sch)
+    except Exception as ex: print('INVALID', f, str(ex)[:200]); continue
+    print(f.split('/')[-1], e['tier'], e['coverage']['evaluations'], e['coverage']['distinct_nontrivial'], e['coverage'].get('verdict'))
 print('manifest ok; checks:', [c['property_id'] for c in m['checks']])
